@@ -317,7 +317,12 @@ def gen_graph(rng: random.Random, maxn: int = 6, falsy: bool = False, surrogate:
     if n > 1 and rng.random() < 0.4:
         for i in range(n - 1):
             nodes[i]["cause" if rng.random() < 0.5 else "context"] = i + 1
-    return {"nodes": nodes}
+    g: Dict[str, Any] = {"nodes": nodes}
+    if rng.random() < 0.15:
+        # the result object was encoded once before (an audit hook, a log line) with another error; the error was then
+        # replaced - by assignment or on a copy - and the object is stored
+        g["prior_dump"] = rng.choice(["assign", "copy"])
+    return g
 
 
 def build_graph(g: Dict[str, Any]) -> List[BaseException]:
@@ -450,6 +455,22 @@ def class_relation(orig: BaseException, loaded: Any, mode: str) -> Optional[str]
                 return f"args changed: {args!r} -> {loaded.args!r}"
             return None
     # stand-in
+    if mode == "pickle":
+        # whatever stands in carries the arguments: the encodable ones as they were, the others as text
+        la: Any = None
+        if type(loaded).__name__ == "_UnpickleableExceptionWrapper":
+            la = getattr(loaded, "exc_args", None)
+        elif type(loaded).__module__ == "builtins" or type(loaded) is cls:
+            la = loaded.args
+        plain = not issubclass(cls, OSError) and all("__init__" not in k.__dict__ and "__new__" not in k.__dict__
+                                                      for k in cls.__mro__ if k.__module__ != "builtins")
+        if la is not None and plain:
+            # (classes that keep what they were called with in .args - no __init__/__new__ of their own up the MRO)
+            if len(la) != len(args):
+                return f"arguments lost: {len(args)} sent ({_safe(args)}), {len(la)} in the stand-in {type(loaded).__name__} ({_safe(tuple(la))})"
+            for x, y in zip(la, args):
+                if pickle_stable(y) and not (strict_eq(x, y) or x == y):
+                    return f"args changed: {_safe(args)} -> {_safe(tuple(la))}"
     if type(loaded) is cls:
         if mode != "pickle" and importable(cls) and reconstructible(cls, args) and not any(isinstance(a, BaseException) for a in args):
             # same class rebuilt from the stored arguments: every argument is still there, in its place - the representable
@@ -550,6 +571,15 @@ def run_c19(spec: Dict[str, Any]) -> "tuple[List[Violation], Dict[str, Any]]":
         surr = has_surrogate(excs)
         try:
             res = TaskiqResult(is_err=True, return_value=None, execution_time=0.1, error=root)
+            if spec.get("prior_dump") and mode != "pickle":
+                res = TaskiqResult(is_err=True, return_value=None, execution_time=0.1, error=RuntimeError("decoy", 0))
+                res.model_dump_json()
+                res.model_dump(mode="json")
+                if spec["prior_dump"] == "assign":
+                    res.error = root
+                else:
+                    res = res.model_copy(update={"error": root})
+                obs["prior_dumps"] = obs.get("prior_dumps", 0) + 1
             back = round_trip(res, mode)
             obs["trips"] += 1
         except BaseException as exc:  # noqa: BLE001
@@ -923,8 +953,12 @@ def monitor_start() -> None:
         _mon_on[0] = True
 
 
-def payload_dict(module: Optional[str], name: str, args: List[Any], nest: int, where: str) -> Dict[str, Any]:
-    p: Dict[str, Any] = {"exc_type": name, "exc_message": list(args), "exc_module": module}
+_NO_RAW = object()
+
+
+def payload_dict(module: Optional[str], name: str, args: List[Any], nest: int, where: str, raw: Any = _NO_RAW) -> Dict[str, Any]:
+    # raw: the stored "arguments" are not a list at all (a scalar, a bare string, an object)
+    p: Dict[str, Any] = {"exc_type": name, "exc_message": list(args) if raw is _NO_RAW else raw, "exc_module": module}
     for i in range(nest):
         outer: Dict[str, Any] = {"exc_type": "ValueError", "exc_message": [f"level {i}"], "exc_module": "builtins"}
         key = "exc_cause" if (where == "cause" or (where == "mixed" and i % 2 == 0)) else "exc_context"
@@ -1001,7 +1035,7 @@ def run_c20(spec: Dict[str, Any]) -> "tuple[List[Violation], Dict[str, Any]]":
     obs: Dict[str, Any] = {"resolved": ok, "is_exc": bool(is_exc), "outcomes": []}
     pre_loaded = {m: (m in sys.modules) for m in NOT_LOADED}
     for entry in spec["entries"]:
-        p = payload_dict(module, name, args, spec["nest"], spec["where"])
+        p = payload_dict(module, name, args, spec["nest"], spec["where"], spec["raw_args"] if "raw_args" in spec else _NO_RAW)
         del TRAP_LOG[:]
         del CALLS[:]
         del IMPORTS[:]
@@ -1103,7 +1137,7 @@ def run_c20(spec: Dict[str, Any]) -> "tuple[List[Violation], Dict[str, Any]]":
                 if not isinstance(inner, target) and not (type(inner) is Exception and target.__name__ in str(inner)):
                     v.append(Violation("exception-class-not-used", f"{entry}: ({module!r}, {name!r}) is an exception class but loaded as {type(inner).__name__}"))
         elif outcome in ("security-error", "validation-error"):
-            if is_exc or not ok:
+            if (is_exc or not ok) and not ("raw_args" in spec and outcome == "validation-error"):
                 v.append(Violation("legit-payload-rejected", f"{entry}: ({module!r}, {name!r}) resolved={ok} is_exc={is_exc} was rejected with {outcome}"))
     for m, was in pre_loaded.items():
         if not was and m in sys.modules:
@@ -1193,8 +1227,14 @@ class C20(Check):
             entries = ["exception_to_python", "model_validate", "model_validate_json"]
             if module and "." not in name and name and rng.random() < 0.4:
                 entries = entries + ["wrapper", "wrapper_validate", "wrapper_pickle"]
-            yield {"module": module, "name": name, "args": rng.choice(ARGS_POOL), "nest": nest,
-                   "where": rng.choice(["cause", "context", "mixed"]), "entries": entries}
+            case = {"module": module, "name": name, "args": rng.choice(ARGS_POOL), "nest": nest,
+                    "where": rng.choice(["cause", "context", "mixed"]), "entries": entries}
+            if rng.random() < 0.08:
+                # stored "arguments" that are not a sequence
+                case["raw_args"] = rng.choice([5, 1.5, True, None, "bare message", {"a": 1}, 0, ""])
+                case["args"] = []
+                case["entries"] = [e for e in entries if not e.startswith("wrapper")]
+            yield case
 
     def run_case(self, spec: Dict[str, Any]) -> CaseResult:
         cr = CaseResult()
